@@ -35,6 +35,10 @@ type Strategy struct {
 func RU(p int32) Strategy { return Strategy{Type: "RollingUpdate", Partition: &p} }
 func OnDelete() Strategy  { return Strategy{Type: "OnDelete", RUNil: true} }
 
+// Typeless: the strategy type is omitted but a rollingUpdate block is given (the CRD does not default the type;
+// the controller treats it as a rolling update everywhere).
+func Typeless(p int32) Strategy { return Strategy{Type: "", Partition: &p} }
+
 // OnDeleteWithBlock: type OnDelete with a leftover rollingUpdate block (as after a merge patch of the type only).
 func OnDeleteWithBlock(p int32) Strategy { return Strategy{Type: "OnDelete", Partition: &p} }
 func (s Strategy) String() string {
@@ -63,15 +67,20 @@ type Spec struct {
 	Paused    bool
 	Deleting  bool
 	Claims    []string // volume claim template names
+	ClaimNS   string   // metadata.namespace written on the claim templates ("" = none)
 	ClaimOwn  bool     // claim templates carry labels of their own
 	ExtraAnn  map[string]string
 	ExtraVols []string // names of non-claim volumes in the pod template
+	SelExpr   bool     // selector written as matchExpressions (app In (web)) instead of matchLabels
 }
 
 func (sp Spec) String() string {
 	s := fmt.Sprintf("r=%d slots=%v %s %s T%d lim=%d", sp.Replicas, sp.Slots, sp.Policy, sp.Strategy, sp.Template, sp.Limit)
 	if sp.SlotsRaw != nil {
 		s += fmt.Sprintf(" slotsRaw=%q", *sp.SlotsRaw)
+	}
+	if sp.SelExpr {
+		s += " selector=expressions"
 	}
 	if sp.Paused {
 		s += " paused"
@@ -140,6 +149,9 @@ func (sp Spec) Build() *asv1.StatefulSet {
 			RevisionHistoryLimit: &lim,
 		},
 	}
+	if sp.SelExpr {
+		set.Spec.Selector = &metav1.LabelSelector{MatchExpressions: []metav1.LabelSelectorRequirement{{Key: "app", Operator: metav1.LabelSelectorOpIn, Values: []string{"web", "web2"}}}}
+	}
 	set.Spec.UpdateStrategy.Type = asv1.StatefulSetUpdateStrategyType(sp.Strategy.Type)
 	if !sp.Strategy.RUNil {
 		set.Spec.UpdateStrategy.RollingUpdate = &asv1.RollingUpdateStatefulSetStrategy{}
@@ -173,7 +185,7 @@ func (sp Spec) Build() *asv1.StatefulSet {
 			own = map[string]string{"own": c}
 		}
 		set.Spec.VolumeClaimTemplates = append(set.Spec.VolumeClaimTemplates, v1.PersistentVolumeClaim{
-			ObjectMeta: metav1.ObjectMeta{Name: c, Labels: own},
+			ObjectMeta: metav1.ObjectMeta{Name: c, Labels: own, Namespace: sp.ClaimNS},
 			Spec:       v1.PersistentVolumeClaimSpec{AccessModes: []v1.PersistentVolumeAccessMode{v1.ReadWriteOnce}},
 		})
 	}
@@ -355,6 +367,8 @@ type Scenario struct {
 	Revs  []int // template ids of the stored revisions, ascending revision number 1..n
 	Cur   int   // index into Revs named by status.currentRevision; -1 unset; -2 dangling name
 	Cells []Cell
+	// Far: additional pods at these (large, multi-digit) ordinals, Ready at the current revision
+	Far []int
 	// StaleStatus: counters zero and observedGeneration behind instead of a census
 	StaleStatus bool
 	Collision   *int32
@@ -366,6 +380,9 @@ func (sc Scenario) String() string {
 		cs = append(cs, c.String())
 	}
 	s := fmt.Sprintf("%s revs=%v cur=%d pods=[%s]", sc.Spec, sc.Revs, sc.Cur, strings.Join(cs, " "))
+	if len(sc.Far) > 0 {
+		s += fmt.Sprintf(" far=%v", sc.Far)
+	}
 	if sc.StaleStatus {
 		s += " stale-status"
 	}
@@ -409,7 +426,26 @@ func (sc Scenario) Build(w *world.World) *world.State {
 		}
 		return 9
 	}
+	cells := map[int]Cell{}
 	for ord, c := range sc.Cells {
+		cells[ord] = c
+	}
+	farRev := sc.Cur
+	if farRev < 0 {
+		farRev = len(sc.Revs) - 1
+	}
+	for _, ord := range sc.Far {
+		if farRev >= 0 {
+			cells[ord] = ReadyAt(farRev)
+		}
+	}
+	ords := make([]int, 0, len(cells))
+	for o := range cells {
+		ords = append(ords, o)
+	}
+	sort.Ints(ords)
+	for _, ord := range ords {
+		c := cells[ord]
 		if !c.Present {
 			continue
 		}
@@ -438,7 +474,8 @@ func (sc Scenario) Build(w *world.World) *world.State {
 		set.Status.ObservedGeneration = 1
 	} else {
 		set.Status.ObservedGeneration = set.Generation
-		for _, c := range sc.Cells {
+		for _, ord := range ords {
+			c := cells[ord]
 			if !c.Present || c.Owner != "" || c.NoMatch {
 				continue
 			}
